@@ -151,6 +151,9 @@ Inductive c13_case :=
    other writer holds everything *)
 | ExchCaseR (client request : option options) (before after : list exch)
             (obs : list (nat * writer * bytes))
+(* the client-level configuration calls in order, whether the exchange ran on a Clone, and the
+   options the real client-level dumper turned out to work with *)
+| ClientOpsCase (ops : list cop) (cloned : bool) (effective : option options)
 | ReqOpsCase (ops : list rop) (effective : option options)
 | FlushCase (client request : option options) (header_block : bytes) (chunks : list bytes)
             (progress : bool).
@@ -187,6 +190,13 @@ Definition c13_check (c : c13_case) : bool :=
                    else content (fst d) w (l1 ++ l2) in
                  bytes_eqb predicted (lookup_obs (fst d) w obs))
                                 (universe ds obs)) ds
+  | ClientOpsCase ops cloned effective =>
+      let st := run_cops ops in
+      match in_force (if cloned then cclone st else st), effective with
+      | Some a, Some b => options_eqb a b
+      | None, None => true
+      | _, _ => false
+      end
   | ReqOpsCase ops effective =>
       match run_rops w_reqbuf ops, effective with
       | Some a, Some b => options_eqb a (request_set_options w_reqbuf b)
